@@ -337,6 +337,16 @@ pub fn run(ctx: &Ctx) -> i32 {
             m.windows.reverse();
             m.walls.reverse();
         }
+        // second observation point: the factor reported with the indicators is the computed one
+        if let (Ok(direct), Ok(ind)) = (code_f(&m), catch(std::panic::AssertUnwindSafe(|| m.energy_indicators()))) {
+            for v in &m.windows {
+                let (a, b) = (direct.get(&v.id).copied(), ind.props.windows.get(&v.id).and_then(|p| p.f_shobst));
+                acc.n += 1;
+                if a.map(f32::to_bits) != b.map(f32::to_bits) {
+                    ctx.violation("props.windows.f_shobst:differs-from-compute_fshobst", &format!("window {}: the indicators report the computed obstruction factor {:?}, Model::compute_fshobst gives {:?} (user value: {:?})", v.name, b, a, m.overrides.windows.get(&v.id).and_then(|o| o.f_shobst)), json!({"part": "two-windows", "zone": zones[t[0]], "A(az,tilt)": [paz[t[1]], TILTS[t[2]]], "window": v.name}));
+                }
+            }
+        }
         let case = || json!({"part": "two-windows", "zone": zones[t[0]], "A(az,tilt)": [paz[t[1]], TILTS[t[2]]], "B(az,tilt)": [az_b, TILTS[t[4]]], "B listed first": t[5] == 1, "B position(0 yes,1 window without,2 wall without)": t[6]});
         check_scene(ctx, &m, &case, acc, None);
     });
@@ -379,7 +389,7 @@ pub fn run(ctx: &Ctx) -> i32 {
     ctx.sample(json!({"part": "scene", "zone": zones[t[0]], "azimuth": AZS[t[1]], "tilt": TILTS[t[2]], "setback_idx": t[3], "obstacle": OBST[t[4]], "fillers": FILLERS[t[5]], "positions": t[6]}));
     ctx.finish(
         "model_checking",
-        &format!("full product zones({}) x window-wall azimuth(8) x tilt{{90,45,0}} x setback{{0,0.2}} x obstacle{{none, facing wall at 1/5/20 m, overhang, big overhang, side fin, half cover, behind, below}} x far-away filler occluders{{0,29,30,31,60}} (crossing the BVH leaf size) x positions{{all, window without, wall without}} (every other scene lists the wall outline from its third corner, the window staying where it is); oracle: brute-force f64 ray/polygon casting from the code's own sample points over the statement's occluder set (reveals recomputed), bands: 1 mm from an outline, |n.d|<0.02, sun within 0.02 of the back-face threshold; F in [lo-0.005, hi+0.005], in [0,1], >= 0.97 when nothing can be hit, diffuse share when hidden at every hour, sample points on the window rectangle in the set-back plane; exact monotonicity when each alphabet obstacle (one as a wall) is added; two-window models over all ordered pairs of wall poses (azimuth(4) x tilt(3) x second azimuth{{same,+90}} x tilt(3) x list order x second window with / without position, every other one with a user obstruction factor next to the computed one); shipped models with and without extra obstacles; non-trivial = some ray can be blocked", zones.len()),
+        &format!("full product zones({}) x window-wall azimuth(8) x tilt{{90,45,0}} x setback{{0,0.2}} x obstacle{{none, facing wall at 1/5/20 m, overhang, big overhang, side fin, half cover, behind, below}} x far-away filler occluders{{0,29,30,31,60}} (crossing the BVH leaf size) x positions{{all, window without, wall without}} (every other scene lists the wall outline from its third corner, the window staying where it is); oracle: brute-force f64 ray/polygon casting from the code's own sample points over the statement's occluder set (reveals recomputed), bands: 1 mm from an outline, |n.d|<0.02, sun within 0.02 of the back-face threshold; F in [lo-0.005, hi+0.005], in [0,1], >= 0.97 when nothing can be hit, diffuse share when hidden at every hour, sample points on the window rectangle in the set-back plane; exact monotonicity when each alphabet obstacle (one as a wall) is added; two-window models over all ordered pairs of wall poses (azimuth(4) x tilt(3) x second azimuth{{same,+90}} x tilt(3) x list order x second window with / without position, every other one with a user obstruction factor next to the computed one, and the factor in EnergyIndicators.props.windows compared with Model::compute_fshobst); shipped models with and without extra obstacles; non-trivial = some ray can be blocked", zones.len()),
         true,
         json!({"scenes": n}),
     )
